@@ -134,6 +134,12 @@ func harness(r role) *vrt.Harness {
 		if err != nil {
 			return "", "HARNESS: " + err.Error()
 		}
+		var racePark func()
+		v.VerifSetLogHook(func(msg string) {
+			if racePark != nil && strings.HasPrefix(msg, "Removing idle torrent") {
+				racePark()
+			}
+		})
 		var mu sync.Mutex
 		var dlErr error
 		dlReturned := false
@@ -171,14 +177,8 @@ func harness(r role) *vrt.Harness {
 			idle := now.Sub(lastActivity)
 			if present && gone && !removedManually {
 				present = false
-				what := "completed torrent dropped as idle although it served a piece less than the seeder idle limit ago"
-				if !complete {
-					what = "in-progress torrent dropped as idle although it received a piece less than the leecher idle limit ago"
-				}
-				if idle < tti {
-					vio = append(vio, fmt.Sprintf("%s (idle %s, limit %s, after %s)", what, idle, tti, after))
-				}
-				// what removal must (not) do to the files
+				// what removal must (not) do to the files comes first: it is the
+				// more severe clause and gets its own fingerprint
 				if complete {
 					r, err := cads.Cache().GetFileReader(dg.Hex())
 					if err != nil {
@@ -193,8 +193,18 @@ func harness(r role) *vrt.Harness {
 				} else if _, err := ta.Stat("ns", dg); err == nil {
 					vio = append(vio, "dropping an in-progress download left its partial file behind")
 				}
+				what := "completed torrent dropped as idle although it served a piece less than the seeder idle limit ago"
+				if !complete {
+					what = "in-progress torrent dropped as idle although it received a piece less than the leecher idle limit ago"
+				}
+				if after == "tick-race" {
+					what = "torrent dropped by an idle tick although its last piece arrived while the tick was deciding [tick racing with the last piece]"
+				}
+				if idle < tti {
+					vio = append(vio, fmt.Sprintf("%s (idle %s, limit %s, after %s)", what, idle, tti, after))
+				}
 			}
-			if present && !gone && after == "tick" && idle > 2*tti {
+			if present && !gone && (after == "tick" || after == "tick-race") && idle > 2*tti {
 				vio = append(vio, fmt.Sprintf("torrent with no activity for more than twice the idle limit survived a tick (idle %s)", idle))
 			}
 			if present && !gone {
@@ -255,6 +265,54 @@ func harness(r role) *vrt.Harness {
 				c.Drain()
 				check("tick")
 			}})
+			if !complete && !fm.isClosed() && received == nPieces-1 {
+				// The last missing piece arrives while the event loop is INSIDE the
+				// preemption tick, between its idle decision and the removal (the
+				// loop is parked at its own "Removing idle torrent" log line).
+				a = append(a, e1q.Action{Label: "tick racing with the arrival of the last piece", Run: func() {
+					raced := false
+					racePark = func() {
+						if raced {
+							return
+						}
+						raced = true
+						c.Park("loop inside tick: removing idle torrent")
+					}
+					go v.SendPreemptionTick()
+					for i := 0; i < 50; i++ {
+						c.Wait()
+						parked := false
+						for _, l := range c.Pending() {
+							if strings.HasPrefix(l, "loop inside tick") {
+								parked = true
+							}
+						}
+						if parked {
+							k := received
+							received++
+							s, e := k*pieceLen, min((k+1)*pieceLen, len(blob))
+							msg := conn.NewPiecePayloadMessage(k, piecereader.NewBuffer(blob[s:e]))
+							go func() {
+								defer func() { recover() }()
+								fm.recv <- msg
+							}()
+							c.Wait()
+							if disp.Complete() {
+								complete = true
+								lastActivity = time.Now()
+							}
+							break
+						}
+						if len(c.Pending()) == 0 {
+							break
+						}
+						c.DrainOne()
+					}
+					racePark = nil
+					c.Drain()
+					check("tick-race")
+				}})
+			}
 			if !complete && !removedManually {
 				a = append(a, e1q.Action{Label: "RemoveTorrent", Run: func() {
 					removedManually = true
